@@ -46,6 +46,7 @@ type History struct {
 	Budget int                 `json:"budget"` // -1 = writer never fails; k = fails after k writes
 	Plans  map[string]SessPlan `json:"plans"`
 	Mode   string              `json:"mode"`
+	Debug  bool                `json:"debug_logging,omitempty"` // the correlator gets a logger with DEBUG enabled
 }
 
 var otherTypes = []string{"USER_START", "USER_END", "SYSCALL", "USER_ACCT", "CRED_ACQ", "USER_CMD", "EXECVE", "USER_LOGIN", "CRED_REFR", "USER_AUTH"}
@@ -203,6 +204,25 @@ func genHistory(r *hutil.Rand, mode string, maxSessions int) History {
 		}
 		scripts = append(scripts, noise)
 	}
+	if (mode == "mixed" || mode == "faults" || mode == "wf") && r.Chance(1, 3) {
+		// a LOGIN-type record WITHOUT a session id (or with the unset one) that carries the pid of one of the
+		// sshd logins of this history, plus follow-up records without session: never to be emitted
+		var pids []int
+		for _, pl := range h.Plans {
+			if pl.LoginID >= 0 {
+				pids = append(pids, pl.PID)
+			}
+		}
+		if len(pids) > 0 {
+			p := pids[r.Intn(len(pids))]
+			ses := hutil.Pick(r, []string{"", "", "unset"})
+			noSes := []HOp{g.ev(ses, "LOGIN", strconv.Itoa(p))}
+			for i := 0; i < 1+r.Intn(2); i++ {
+				noSes = append(noSes, g.ev(ses, hutil.Pick(r, otherTypes), strconv.Itoa(p+1000)))
+			}
+			scripts = append(scripts, noSes)
+		}
+	}
 	if mode == "faults" {
 		var f []HOp
 		switch r.Intn(4) {
@@ -242,6 +262,23 @@ func genHistory(r *hutil.Rand, mode string, maxSessions int) History {
 			ops = out
 		}
 	}
+	if r.Chance(1, 2) {
+		// cleanup calls whose cut-off lies before everything: they must discard nothing, whatever is pending
+		// (ended sessions still waiting for their login included)
+		n := 1 + r.Intn(2)
+		for i := 0; i < n; i++ {
+			pos := r.Intn(len(ops) + 1)
+			kind := "clean_sess"
+			if r.Chance(1, 3) {
+				kind = "clean_logins"
+			}
+			c := HOp{Kind: kind, Cut: -1}
+			out := append([]HOp{}, ops[:pos]...)
+			out = append(out, c)
+			out = append(out, ops[pos:]...)
+			ops = out
+		}
+	}
 	// fix up time references now that positions are known
 	for i := range ops {
 		switch ops[i].Kind {
@@ -254,10 +291,15 @@ func genHistory(r *hutil.Rand, mode string, maxSessions int) History {
 			}
 			ops[i].Login = &l
 		case "clean_sess", "clean_logins":
-			ops[i].Cut = r.Intn(i + 1)
+			if ops[i].Cut == -1 {
+				ops[i].Cut = 0 // the boundary before the first operation
+			} else {
+				ops[i].Cut = r.Intn(i + 1)
+			}
 		}
 	}
 	h.Ops = ops
+	h.Debug = r.Chance(1, 3)
 	return h
 }
 
